@@ -3,7 +3,8 @@
 
    1. A small evaluation model with a cancellation oracle: programs are chunks of
       one-form pipelines over ticks, a synchronous cancel, fail, lambda calls,
-      try/catch/finally, each-loops and closures with defer.  The Go code checks
+      try/catch/finally, each-loops, while-loops with a pure condition and
+      closures with defer; any chunk may be EMPTY.  The Go code checks
       the context in exactly two places (pkg/eval/compile_effect.go):
         pipelineOp.exec   on entry  -> [CCons] below
         chunkOp.exec      on exit   -> [CNil] below
@@ -27,7 +28,11 @@ with form :=
 | FTry (b : chunk) (hc : bool) (c : chunk) (hf : bool) (f : chunk)
                                          (* try { b } [catch { c }] [finally { f }] *)
 | FEach (k : nat) (b : chunk)            (* each {|_| b } [(range k)] *)
-| FDefer (d : chunk) (r : chunk).        (* { defer { d }; r } *)
+| FDefer (d : chunk) (r : chunk)         (* { defer { d }; r } *)
+| FWhile (k : nat) (b : chunk).          (* while <pure value condition, true k times> { b }
+                                            -- the loop itself has no cancellation check: the
+                                            only checks are those of the body chunk, which
+                                            may be EMPTY (then: the check after the chunk) *)
 
 Inductive exn := XInt | XFail (id : N).
 
@@ -94,6 +99,19 @@ with eval_form (ko : option nat) (f : form) (s : es) : es * option exn :=
              | None => loop k' s1
              end
          end) k s
+  | FWhile k b =>
+      (* whileOp.exec: evaluate the condition (a value expression starts no
+         pipeline), call the body, repeat; an exception of the body ends the loop *)
+      (fix loop (k : nat) (s : es) : es * option exn :=
+         match k with
+         | 0 => (s, None)
+         | S k' =>
+             let '(s1, e) := eval_chunk ko b s in
+             match e with
+             | Some x => (s1, Some x)
+             | None => loop k' s1
+             end
+         end) k s
   | FDefer d r =>
       (* the closure body is the chunk [defer { d }; r]; the deferred call runs
          after the body (Closure.Call: exc wins over excDefer) *)
@@ -145,6 +163,7 @@ with defer_free_f (f : form) : bool :=
   | FCall b => defer_free b
   | FTry b _ c _ f => defer_free b && defer_free c && defer_free f
   | FEach _ b => defer_free b
+  | FWhile _ b => defer_free b
   | FDefer _ _ => false
   | _ => true
   end.
